@@ -1097,6 +1097,13 @@ func (db *DB) handleMemTableFlush(mt *memTable, dropPrefixes [][]byte) error {
 		tbl, err = table.OpenInMemoryTable(data, fileID, &bopts)
 	} else {
 		tbl, err = table.CreateTable(table.NewFilename(fileID, db.opt.Dir), builder)
+		if err == nil {
+			// Make the table's directory entry durable before the MANIFEST refers to it
+			// and before the memtable's WAL is removed (compactions do the same).
+			if err = db.syncDir(db.opt.Dir); err != nil {
+				_ = tbl.DecrRef()
+			}
+		}
 	}
 	if err != nil {
 		return y.Wrap(err, "error while creating table")
